@@ -17,7 +17,7 @@ func init() {
 		ID: "C02",
 		Explanation: `R02.1 pre-commit write confinement: in every function reachable from the overlay bowl's patching-phase API (NewOverlayBowl, Resume, Save, GetWriter, Transpose, Close and the methods of the entry writers it hands out) no file-system mutator takes a path (or pool) derived from the output folder / target pool, the entry writers' paths come from the stage pool, which is rooted in StageFolder; conversely every mutator whose path derives from OutputFolder sits in a function reachable only from Commit; ` +
 			`R02.2 commit phases run in the required order with errors checked (dirs+symlinks before transpositions and moves; transpositions before overlays and ghost deletion); R02.3 ghosts are deleted longest path first; R02.5 ghost detection covers files, symlinks and dirs on both sides; R02.4 overlay application ends with truncation; ` +
-			`R02.6 index-space consistency: no integer flows both into a use as an index of the new build's file list and into a use as an index of the old build's (bowl, patcher, rediff, diff). ` +
+			`R02.6 index-space consistency: no integer flows both into a use as an index of the new build's file list and into a use as an index of the old build's (bowl, patcher, rediff, diff); R02.7 in the bowl, every MkdirAll of a path derived from a tlc.Dir entry is preceded on every path by Lstat of the same path. ` +
 			`NOT decided: that the commit result equals the new build, independence from map iteration order in applyTranspositions, kind changes (old non-empty directory -> new file).`,
 		Assumptions: []string{
 			"file-system mutators are the screw/os functions OpenFile(with write flags)/Create/Remove/RemoveAll/Rename/Mkdir/MkdirAll/Symlink/Truncate/Chmod/WriteFile, FsPool.GetWriter and Container.Prepare",
@@ -206,6 +206,7 @@ func runC02(c *core.Ctx) {
 	c.Rule("R02.4", "overlay application ends with truncation")
 	c.Rule("R02.5", "ghost detection covers every entry kind")
 	c.Rule("R02.6", "index-space consistency")
+	c.Rule("R02.7", "directories are made after a no-follow look")
 	g := c.P.CallGraph(c.Tier == "thorough")
 	reachFrom := func(roots []*ssa.Function) map[*ssa.Function]bool {
 		reach := map[*ssa.Function]bool{}
@@ -232,7 +233,7 @@ func runC02(c *core.Ctx) {
 		return reach
 	}
 	var pre []*ssa.Function
-	for _, n := range []string{"NewOverlayBowl", "overlayBowl.Resume", "overlayBowl.Save", "overlayBowl.GetWriter", "overlayBowl.Transpose", "overlayBowl.Close", "overlayBowl.markOverlay", "overlayBowl.markMove"} {
+	for _, n := range []string{"NewOverlayBowl", "overlayBowl.Resume", "overlayBowl.Save", "overlayBowl.GetWriter", "overlayBowl.Transpose", "overlayBowl.Close"} { // the Bowl interface before Commit; their helpers are reached through them
 		if f := c.P.Fn("pwr/bowl", n); f != nil {
 			pre = append(pre, f)
 		} else {
@@ -350,7 +351,10 @@ func runC02(c *core.Ctx) {
 	// ---- R02.2
 	phase := func(n string) ssa.Instruction {
 		f := c.P.Fn("pwr/bowl", "overlayBowl."+n)
-		return firstInstr(commit, func(in ssa.Instruction) bool { cl, ok := in.(*ssa.Call); return ok && f != nil && cl.Call.StaticCallee() == f })
+		return firstInstr(commit, func(in ssa.Instruction) bool {
+			cl, ok := in.(*ssa.Call)
+			return ok && f != nil && cl.Call.StaticCallee() == f
+		})
 	}
 	pairs := [][2]string{{"ensureDirsAndSymlinks", "applyTranspositions"}, {"ensureDirsAndSymlinks", "applyMoves"}, {"applyTranspositions", "applyOverlays"}, {"applyTranspositions", "deleteGhosts"}}
 	for _, pr := range pairs {
@@ -363,6 +367,79 @@ func runC02(c *core.Ctx) {
 		ok := core.InstrDominates(a, b) && ungatedPath(commit, ac, b, nil) == nil
 		c.Check(ok, "R02.2", core.FnName(commit), pr[0]+" completes successfully before "+pr[1], core.InstrPos(b),
 			"dominates, and the later phase is reachable only through the earlier one's nil result", pr[1]+" can run before (or although) "+pr[0]+" has not completed successfully")
+	}
+
+	// ---- R02.7: a directory of the new build is made only after a look, without following links, at what
+	// is at its path (MkdirAll itself follows links: a link to a directory would be kept as "the directory")
+	{
+		var fromDirEntry func(v ssa.Value, d int) bool
+		fromDirEntry = func(v ssa.Value, d int) bool {
+			if d > 6 {
+				return false
+			}
+			for _, o := range core.Origins(v) {
+				if b, n, ok := core.FieldOf(o); ok && n == "Path" && core.TypeName(b.Type()) == "github.com/itchio/lake/tlc.Dir" {
+					return true
+				}
+				if cl, ok := o.(*ssa.Call); ok {
+					switch core.CalleeName(cl) {
+					case "path/filepath.Join", "path/filepath.FromSlash", "path/filepath.Clean":
+						for _, a := range cl.Call.Args {
+							if fromDirEntry(a, d+1) {
+								return true
+							}
+						}
+					}
+				}
+				if sl, ok := o.(*ssa.Slice); ok { // variadic arguments of Join
+					if fromDirEntry(sl.X, d+1) {
+						return true
+					}
+				}
+				if al, ok := o.(*ssa.Alloc); ok {
+					if refs := al.Referrers(); refs != nil {
+						for _, r := range *refs {
+							if ia, ok := r.(*ssa.IndexAddr); ok {
+								if irefs := ia.Referrers(); irefs != nil {
+									for _, rr := range *irefs {
+										if st, ok := rr.(*ssa.Store); ok && fromDirEntry(st.Val, d+1) {
+											return true
+										}
+									}
+								}
+							}
+						}
+					}
+				}
+			}
+			return false
+		}
+		isMk := callTo("github.com/itchio/screw.MkdirAll", "os.MkdirAll")
+		nMk := 0
+		for _, fn := range fns {
+			core.Instrs(fn, func(in ssa.Instruction) {
+				if !isMk(in) {
+					return
+				}
+				path := in.(*ssa.Call).Call.Args[0]
+				if !fromDirEntry(path, 0) {
+					return
+				}
+				nMk++
+				isLstat := func(x ssa.Instruction) bool {
+					cl, ok := x.(*ssa.Call)
+					if !ok {
+						return false
+					}
+					n := core.CalleeName(cl)
+					return (n == "github.com/itchio/screw.Lstat" || n == "os.Lstat") && (sameVal(cl.Call.Args[0], path) || sameExpr(cl.Call.Args[0], path))
+				}
+				p := core.FindPath(fn, nil, isInstr(in), isLstat)
+				c.Check(p == nil, "R02.7", core.FnName(fn), "a build directory is made only after Lstat of its path", core.InstrPos(in),
+					"every path to this MkdirAll looks at the path with Lstat first", "a directory of the new build is created (or taken as already there) without a no-follow look at what is at its path: an old symlink to a directory stays in place and later writes land in its target").Path = c.P.PathStrings(p)
+			})
+		}
+		c.Floor("R02.7", "MkdirAll of new-build directory entries in the bowl", nMk, 1)
 	}
 
 	// ---- R02.3
